@@ -345,7 +345,7 @@ pub open spec fn select_text(t: Seq<char>) -> Option<(Rc<dyn Get>, Option<Seq<u8
 impl FromStr for Selection {
     type Err = SelectionParseError;
 //@@ fn expr.selection.from_str = src/selection.rs :: impl FromStr for Selection :: fn from_str
-//@@ safety C18 C13 C05
+//@@ safety C18 C13 C05 C15
 //@@ ret r
 //@@ rewrite try_io str_to_string
 //@@ header
@@ -354,7 +354,7 @@ impl FromStr for Selection {
             // expression is nothing or `= title`, anything else is an error (C18); the title is the text after `=`, or the
             // whole option text
             r is Ok ==> (select_text(s@) matches Some(gt) && gt.0 == r->Ok_0.g()
-                && (gt.1 is None ==> r->Ok_0.title() == s@) && (gt.1 matches Some(b) ==> str_bytes(r->Ok_0.title()) == b)), // @obl EXPR.selection.text : C18 C13
+                && (gt.1 is None ==> r->Ok_0.title() == s@) && (gt.1 matches Some(b) ==> str_bytes(r->Ok_0.title()) == b)), // @obl EXPR.selection.text : C18 C13 C15
 //@@ after "let mut reader = from_string(&source);"
         let ghost p = text_pending(s@);
         let ghost w = ws_run(p) as int;
